@@ -74,15 +74,21 @@ def rule_branch_loop(ctx):
     # ONEAPPEND / TSCINDEP / MARKER on branch_and_root
     bar = ctx.func('merkle', 'Merkle.branch_and_root')
     cfg = ctx.cfg(bar)
+    rets_ = [r for r in bar.own_nodes() if isinstance(r, ast.Return) and isinstance(r.value, ast.Tuple) and len(r.value.elts) == 2
+             and isinstance(r.value.elts[0], ast.Name)]
+    if len(rets_) != 1:
+        raise AnalysisError('Merkle.branch_and_root: expected `return <branch list>, <root>`')
+    BR = rets_[0].value.elts[0].id
+    HS = norm(rets_[0].value.elts[1].value) if isinstance(rets_[0].value.elts[1], ast.Subscript) else 'hashes'
     loops = [s for s in bar.own_nodes() if isinstance(s, (ast.For, ast.While))
-             and any(isinstance(c, ast.Call) and q.callee_name(ctx, bar, c) == 'branch.append'
+             and any(isinstance(c, ast.Call) and q.callee_name(ctx, bar, c) == f'{BR}.append'
                      for c in walk_own(s))]
     loops = [l for l in loops if not any(isinstance(a, (ast.For, ast.While)) and a is not l and
                                          any(x is l for x in ast.walk(a)) for a in loops)]
     if len(loops) != 1:
         raise AnalysisError('Merkle.branch_and_root: expected one level loop appending to branch')
     loop = loops[0]
-    appends = [q.stmt(c) for c in q.calls_named(ctx, bar, 'branch.append')]
+    appends = [q.stmt(c) for c in q.calls_named(ctx, bar, f'{BR}.append')]
     ok, wit = pr.once_per_iteration(cfg, loop, [cfg.node(s) for s in appends])
     ctx.check(ok, 'C12.ONEAPPEND', ctx.key(bar, loop, 'branch.append'),
               'every level iteration appends exactly one branch element on every path',
@@ -94,7 +100,7 @@ def rule_branch_loop(ctx):
     ctx.check(ok, 'C12.ONEAPPEND', ctx.key(bar, loop, 'index update'),
               'index is moved up exactly once per level', 'index is not moved up exactly once per level',
               wit, ctx.loc(bar, loop))
-    reduces = [s for s in q.assigns(ctx, bar, 'hashes') if q.in_body(s, loop.body)]
+    reduces = [s for s in q.assigns(ctx, bar, HS) if q.in_body(s, loop.body)]
     ok, wit = pr.once_per_iteration(cfg, loop, [cfg.node(s) for s in reduces])
     ctx.check(ok, 'C12.ONEAPPEND', ctx.key(bar, loop, 'level reduction'),
               'the level is reduced exactly once per iteration', 'the level is not reduced exactly once per iteration',
@@ -102,7 +108,7 @@ def rule_branch_loop(ctx):
 
     # TSCINDEP: index / hashes updates neither control- nor data-dependent on tsc_format
     tainted = df.forward_taint(bar, {'tsc_format'})
-    hm = [q.stmt(c) for c in q.calls_named(ctx, bar, 'hashes.append')]
+    hm = [q.stmt(c) for c in q.calls_named(ctx, bar, f'{HS}.append')]
     n_t = 0
     for s in shifts + reduces + hm:
         n_t += 1
@@ -117,7 +123,7 @@ def rule_branch_loop(ctx):
 
     # MARKER: a constant appended to the branch must be guarded by tsc_format
     n_m = 0
-    for c in q.calls_named(ctx, bar, 'branch.append'):
+    for c in q.calls_named(ctx, bar, f'{BR}.append'):
         if c.args and isinstance(c.args[0], ast.Constant):
             n_m += 1
             s = q.stmt(c)
